@@ -10,7 +10,7 @@ git -C /repo worktree add -q --detach $WT HEAD || exit 2
 cd $WT || exit 2
 git apply $SRC/patch.diff || { echo "PATCH DOES NOT APPLY"; cd /; git -C /repo worktree remove --force $WT; exit 2; }
 go build ./... || { echo "BUILD FAILS"; cd /; git -C /repo worktree remove --force $WT; exit 2; }
-cp -r $SRC/demo/* $DEST/
+mkdir -p $DEST; cp -r $SRC/demo/* $DEST/
 go test -count=1 -run "$RUN" $PKG > /tmp/adopt-$PID-$N.with.log 2>&1; W=$?
 git apply -R $SRC/patch.diff
 go test -count=1 -run "$RUN" $PKG > /tmp/adopt-$PID-$N.without.log 2>&1; WO=$?
